@@ -48,6 +48,7 @@ REQUIRED = {
     "state_nodes_compared_plain": 300,
     "state_contract_evaluations": 300,
     "state_event_nodes_compared": 20,
+    "state_event_reference_inputs_taken_from_the_dataset": 20,
     "state_bernoulli_nodes_compared": 10,
     "fit_contract_evaluations": 1000,
 }
@@ -495,6 +496,7 @@ STATE_GRID = [
     ("logistic", 1, 0, "gaussian-scalar"), ("logistic", 3, 1, "gaussian-scalar"), ("logistic", 3, 2, "gaussian-diagonal"),
     ("logistic", 2, 1, "bernoulli"), ("logistic", 3, 0, "bernoulli"), ("linear", 2, 1, "gaussian-diagonal"),
     ("shared_speed_logistic", 3, 1, None), ("joint", 3, 2, None),
+    ("joint", 2, 1, "events2"), ("joint", 1, 0, "events2"),  # two competing events
 ]
 
 
@@ -568,7 +570,7 @@ def _sum_ind(a, w=None):
     return a.reshape(a.shape[0], -1).sum(axis=1) if a.ndim > 1 else a
 
 
-def reference_nodes(model, state, cc):
+def reference_nodes(model, state, cc, ds=None):
     """name -> dict(want=np array (inf marks 'penalty expected'), scale=sum|terms|, f32=bool, fam=str, skip=mask|None)."""
     import numpy as np
     import torch
@@ -609,7 +611,15 @@ def reference_nodes(model, state, cc):
         elif issubclass(fam, D.AbstractWeibullRightCensoredFamily):
             ps = [val(k) for k in pn]
             shifts = cc._np(ps[4]) if len(ps) > 4 else None
-            T = ref.weibull_terms(cc._np(data.value), w, *[cc._np(q) for q in ps[:4]], shifts)
+            ev_t = cc._np(data.value)
+            if ds is not None and getattr(ds, "event_bool", None) is not None and getattr(ds, "event_time", None) is not None:
+                # event times and censoring indicators as ingested (one column per kind of event): the table is the truth, the state's
+                # `event` variable is something the model builds from it
+                w_ds, t_ds = cc._np(ds.event_bool) != 0, cc._np(ds.event_time)
+                if w is not None and w_ds.shape == np.shape(w) and t_ds.shape == ev_t.shape:
+                    out["__event_inputs_from_dataset__"] = True
+                    w, ev_t = w_ds, t_ds
+            T = ref.weibull_terms(ev_t, w, *[cc._np(q) for q in ps[:4]], shifts)
             out[node] = dict(want=_sum_ind(T["nll"]), scale=_sum_ind(np.where(np.isfinite(T["nll"]), np.abs(T["nll"]), 0.0)),
                              f32=is32(data, *ps), fam="weibull", skip=None,
                              at_tau_only=_sum_ind((T["observed"] & T["at_tau"] & (np.broadcast_to(cc._np(ps[1]), T["nll"].shape) <= 1.0)).astype(float)) > 0,
@@ -773,7 +783,9 @@ def _state_cases(spec, ctx, cc_or_none):
             c2 = dict(case, rep=rep, **info)
             ev0 = cc.evaluations() if with_c else 0
             try:
-                refs = reference_nodes(model, state, cc)
+                refs = reference_nodes(model, state, cc, ds=ds)
+                if refs.pop("__event_inputs_from_dataset__", False):
+                    ctx.count("state_event_reference_inputs_taken_from_the_dataset")
             except cc.DensityPostBroken as e:  # reading 'model' etc. never runs a density, but be safe
                 ctx.violation(e.key, f"[state inputs] {e.what}", c2, **e.detail)
                 continue
